@@ -41,8 +41,6 @@ Definition get_paren (s : mstate) (g : nat) : res (option (list N)) :=
 End Caps.
 
 (* ---------------------------------------------------------------- replacement expansion *)
-Definition is_digit (c : N) : bool := (N.leb 48 c) && (N.leb c 57).
-Definition dval (c : N) : nat := N.to_nat (c - 48).
 
 Section Expand.
 Variable r : list N.                           (* replacement string *)
@@ -114,7 +112,11 @@ End Expand.
 
 (* ---------------------------------------------------------------- ReMatcher::replace *)
 Section Replace.
-Variable prog : program.
+(* the scan loop is written over an abstract match function so that its theorems (Proofs/Scan*.v)
+   need only the interface facts of ReMatcher::matches *)
+Variable matchf : nat -> mstate -> mres.
+Variable literal : bool.
+Variable maxparens : nat.
 Variable input repl : list N.
 Let n := length input.
 
@@ -128,15 +130,15 @@ Fixpoint replace_loop (fuel pos : nat) (s : mstate) (result : list N)
   | O => Out
   | S f =>
       if Nat.ltb pos n then
-        '(b, s1) <- mres_bool (matches prog input pos s) ;;
+        '(b, s1) <- mres_bool (matchf pos s) ;;
         if b then
           r1 <- match get_pstart s1 0 with
                 | Some start => t <- rslice input pos start ;; Ok (result ++ t)
                 | None => Ok result
                 end ;;
-          let simple := if first_match then p_literal prog else simple in
+          let simple := if first_match then literal else simple in
           '(r2, simple') <- (if negb simple then
-                               match p_maxparens prog with
+                               match maxparens with
                                | O => Panic 42           (* max_parens - 1 underflows *)
                                | S maxc => expand repl maxc (get_paren input s1) r1
                                end
@@ -150,8 +152,11 @@ Fixpoint replace_loop (fuel pos : nat) (s : mstate) (result : list N)
       else finish pos result first_match
   end.
 
-Definition replace : res (list N) := replace_loop (n + 2) 0 st0 [] true false.
+Definition replace_gen : res (list N) := replace_loop (n + 2) 0 st0 [] true false.
 End Replace.
+
+Definition replace (prog : program) (input repl : list N) : res (list N) :=
+  replace_gen (matches prog input) (p_literal prog) (p_maxparens prog) input repl.
 
 Definition replace_all (re : regex) (input repl : list N) : res (list N) :=
   if r_nullable re then Err EMatchesEmpty else replace (r_prog re) input repl.
@@ -165,11 +170,12 @@ Definition tokenize (re : regex) (input : list N) : res tokst :=
   | _ => if r_nullable re then Err EMatchesEmpty else Ok {| t_prev := Some 0; t_ms := st0 |}
   end.
 
-Definition tok_next (prog : program) (input : list N) (st : tokst) : res (option (list N) * tokst) :=
+Definition tok_next_gen (matchf : nat -> mstate -> mres) (input : list N) (st : tokst)
+  : res (option (list N) * tokst) :=
   match t_prev st with
   | None => Ok (None, st)
   | Some pe =>
-      '(b, s1) <- mres_bool (matches prog input pe (t_ms st)) ;;
+      '(b, s1) <- mres_bool (matchf pe (t_ms st)) ;;
       if b then
         match get_pstart s1 0 with
         | None => Panic 44
@@ -181,6 +187,7 @@ Definition tok_next (prog : program) (input : list N) (st : tokst) : res (option
         cur <- rslice input pe (length input) ;;
         Ok (Some cur, {| t_prev := None; t_ms := s1 |})
   end.
+Definition tok_next (prog : program) (input : list N) := tok_next_gen (matches prog input) input.
 
 (* ---------------------------------------------------------------- analyze / AnalyzeIter *)
 Inductive mentry := MStr (s : list N) | MGrp (nr : nat) (v : list mentry).
@@ -384,7 +391,7 @@ Definition analyze (re : regex) : res (list (nat * nat) * anst) :=
     Ok (table, {| a_next := None; a_prev := Some 0; a_skip := false; a_ms := st0 |}).
 
 Section AnalyzeNext.
-Variable prog : program.
+Variable matchf : nat -> mstate -> mres.
 Variable input : list N.
 Variable table : list (nat * nat).
 Let n := length input.
@@ -397,7 +404,7 @@ Definition analyze_entry (next_sub : option (list N)) (prev : option nat) (s : m
   | _, _ => Ok (ANon current)
   end.
 
-Definition an_next (st : anst) : res (option aentry * anst) :=
+Definition an_next_gen (st : anst) : res (option aentry * anst) :=
   match a_prev st with
   | None => Ok (None, st)
   | Some prev_end =>
@@ -411,7 +418,7 @@ Definition an_next (st : anst) : res (option aentry * anst) :=
           if a_skip st && Nat.leb n search_start && negb (Nat.ltb prev_end n) then
             Ok (None, {| a_next := None; a_prev := None; a_skip := a_skip st; a_ms := a_ms st |})
           else
-            '(b, s1) <- mres_bool (matches prog input search_start (a_ms st)) ;;
+            '(b, s1) <- mres_bool (matchf search_start (a_ms st)) ;;
             if b then
               match get_pstart s1 0, get_pend s1 0 with
               | Some start, Some en =>
@@ -434,3 +441,4 @@ Definition an_next (st : anst) : res (option aentry * anst) :=
       end
   end.
 End AnalyzeNext.
+Definition an_next (prog : program) (input : list N) := an_next_gen (matches prog input) input.
